@@ -1,13 +1,31 @@
 import RoaringModel.Lemmas.TreemapKernel32
+import RoaringModel.Lemmas.TreemapKernel
+import RoaringModel.Lemmas.TreemapQuery
+import RoaringModel.Lemmas.TreemapRemoveRange
+import RoaringModel.Lemmas.TreemapInsertRange
+import RoaringModel.Lemmas.TreemapAppend
+import RoaringModel.Step64
 /-!
 # C10 — RoaringTreemap is an exact set of u64 under mutation and query (property theorems)
 
 Every theorem is stated against `Spec` on strictly ascending lists of `u64` (`maxV = 2^64-1`).
-`Treemap.WF K t` = keys strictly ascending, every key `< 2^32`, every partition `K.WF` and non-empty.
-Theorems named `…_partial` depend on the hypothesis bundle `K : Kernel32` (the 32-bit refinement facts of
-`RoaringBitmap`, proved for the 32-bit core in C01/C07 and discharged at merge); what is proved *here* is the
-partition directory: `split`/`join` arithmetic at 2^32, the sorted association list, creation / replacement
-/ removal of partitions, `elems` = concatenation of the partitions.
+`TWF t` = keys strictly ascending, every key `< 2^32`, every partition `Bitmap.WF` (Inv.lean) and non-empty.
+
+* Theorems named `…_partial` are stated for an arbitrary bundle `K : Kernel32` of 32-bit refinement facts about
+  `RoaringBitmap` (`Treemap.WF K t` = the same invariant over `K.WF`).
+* `Treemap.kernel32 : Kernel32` (Lemmas/TreemapKernel.lean) **proves the bundle** for the mirrored 32-bit model
+  with `WF := Bitmap.WF` from the core library (C01 mutators, C07 queries, `RoaringBitmap::full()`), and the
+  theorems **without** suffix are unconditional: `C10_insert`, `C10_remove`, `C10_contains`, `C10_extend`,
+  `C10_push`, `C10_pushUnchecked`, `C10_insertRange` (spans over 1, 2 and ≥ 3 partitions, whole middle partitions
+  = `RoaringBitmap::full()`), `C10_removeRange`, `C10_append` / `C10_fromSortedIter`, `C10_fromBitmaps`, `C10_len`,
+  `C10_isEmpty`, `C10_min`, `C10_max`, `C10_rank`, `C10_select`, `C10_new_clear`, `C10_elems`, and the history
+  induction `C10_step` / `C10_run` / `C10_history` over the alphabet `Op64` (Step64.lean: all of the above
+  mutators and queries): no panic in either build configuration, every returned value is the abstract one.
+* Not proved (decided by the correspondence check only): `is_full` and the derived `==`.
+
+What is proved at this level is the partition directory: `split`/`join` arithmetic at 2^32, the sorted
+association list, creation / replacement / removal of partitions, `elems` = concatenation of the partitions
+(Lemmas/TreemapDir, TreemapKernel32, TreemapQuery, TreemapRemoveRange, TreemapInsertRange, TreemapAppend).
 -/
 namespace Roaring.C10
 open Roaring Roaring.TL Roaring.Treemap
@@ -28,7 +46,7 @@ example : split (join 3 7) = (3, 7) := by decide
 /-! ### the abstraction -/
 
 /-- `new()` / `clear()` give the well-formed empty set. -/
-theorem C10_new_clear (K : Kernel32) (t : Treemap) :
+theorem C10_new_clear_partial (K : Kernel32) (t : Treemap) :
     WF K Treemap.new ∧ elems Treemap.new = [] ∧ WF K (Treemap.clear t) ∧ elems (Treemap.clear t) = [] :=
   ⟨WFd.nil, rfl, WFd.nil, rfl⟩
 
@@ -438,12 +456,185 @@ theorem C10_max_partial (K : Kernel32) (t : Treemap) (hw : WF K t) : Treemap.max
     rw [hel, List.getLast?_append, List.getLast?_map, hm]
     simp [Treemap.max?, List.reverse_append, hmax]
 
+/-! ### unconditional forms (the 32-bit kernel is `Treemap.kernel32`, proved from the core library) -/
+
+/-- `new()` / `clear()` give the well-formed empty set. -/
+theorem C10_new_clear (t : Treemap) :
+    TWF Treemap.new ∧ elems Treemap.new = [] ∧ TWF (Treemap.clear t) ∧ elems (Treemap.clear t) = [] :=
+  C10_new_clear_partial kernel32 t
+
+/-- The values of a well-formed treemap are strictly ascending `u64`s, and `x` is a value iff its low half is
+    in the partition of its high half. -/
+theorem C10_elems (t : Treemap) (hw : TWF t) :
+    Spec.Sorted (elems t) ∧ (∀ x ∈ elems t, x < 18446744073709551616) ∧
+    ∀ x, x ∈ elems t ↔ ∃ b, get t (x / 4294967296) = some b ∧ x % 4294967296 ∈ Bitmap.elems b :=
+  C10_elems_partial kernel32 t hw
+
+/-- `insert`: well-formedness is preserved, the set becomes `s ∪ {v}`, the result is `v ∉ s`. -/
+theorem C10_insert (t : Treemap) (hw : TWF t) (v : Nat) (hv : v < 18446744073709551616) :
+    TWF (Treemap.insert t v).1 ∧ elems (Treemap.insert t v).1 = (Spec.insert (elems t) v).1 ∧
+      (Treemap.insert t v).2 = (Spec.insert (elems t) v).2 := C10_insert_partial kernel32 t hw v hv
+
+/-- `remove`: the set becomes `s \ {v}` (an emptied partition is dropped), the result is `v ∈ s`. -/
+theorem C10_remove (t : Treemap) (hw : TWF t) (v : Nat) (hv : v < 18446744073709551616) :
+    TWF (Treemap.remove t v).1 ∧ elems (Treemap.remove t v).1 = (Spec.remove (elems t) v).1 ∧
+      (Treemap.remove t v).2 = (Spec.remove (elems t) v).2 := C10_remove_partial kernel32 t hw v hv
+
+/-- `contains` answers membership exactly. -/
+theorem C10_contains (t : Treemap) (hw : TWF t) (v : Nat) (hv : v < 18446744073709551616) :
+    Treemap.contains t v = Spec.contains (elems t) v := C10_contains_partial kernel32 t hw v hv
+
+/-- `extend` / `from_iter`: the set becomes `s ∪ vs` (fold of `insert`). -/
+theorem C10_extend (vs : List Nat) (hv : ∀ v ∈ vs, v < 18446744073709551616) (t : Treemap) (hw : TWF t) :
+    TWF (Treemap.extend t vs) ∧ elems (Treemap.extend t vs) = Spec.extend (elems t) vs :=
+  C10_extend_partial kernel32 vs hv t hw
+
+/-- `push` succeeds exactly when `v` is above the current maximum, and then appends `v`. -/
+theorem C10_push (t : Treemap) (hw : TWF t) (v : Nat) (hv : v < 18446744073709551616) :
+    TWF (Treemap.push t v).1 ∧ elems (Treemap.push t v).1 = (Spec.push (elems t) v).1 ∧
+      (Treemap.push t v).2 = (Spec.push (elems t) v).2 := C10_push_partial kernel32 t hw v hv
+
+/-- `len` is the number of values. -/
+theorem C10_len (t : Treemap) (hw : TWF t) : Treemap.len t = (elems t).length := C10_len_partial kernel32 t hw
+
+/-- `is_empty` answers emptiness. -/
+theorem C10_isEmpty (t : Treemap) (hw : TWF t) : Treemap.isEmpty t = (elems t).isEmpty :=
+  C10_isEmpty_partial kernel32 t hw
+
+/-- `min` is the first value. -/
+theorem C10_min (t : Treemap) (hw : TWF t) : Treemap.min? t = Spec.min? (elems t) := C10_min_partial kernel32 t hw
+
+/-- `max` is the last value. -/
+theorem C10_max (t : Treemap) (hw : TWF t) : Treemap.max? t = Spec.max? (elems t) := C10_max_partial kernel32 t hw
+
+/-- `convert_range_to_inclusive` (the `u64` copy of treemap/util.rs) computes exactly the interval of values
+    selected by the two bounds, and `None` exactly when that interval is empty. -/
+theorem C10_convertRange (lo hi : Bound) (hlo : Bound.le u64Max lo) (hhi : Bound.le u64Max hi) :
+    convertRange64 lo hi = Spec.interval u64Max lo hi := convertRange64_interval lo hi hlo hhi
+
+/-- `insert_range`: every value of the range is added — for spans inside one partition, across two, and over
+    any number of whole middle partitions (which become `RoaringBitmap::full()`) — and the result is the number
+    of values that were new.  (The model's counter is a `Nat`: the `u64` counter of the code can overflow only
+    when all 2^64 values are new, see C16.) -/
+theorem C10_insertRange (t : Treemap) (hw : TWF t) (lo hi : Bound)
+    (hlo : Bound.le u64Max lo) (hhi : Bound.le u64Max hi) :
+    TWF (Treemap.insertRange t lo hi).1 ∧
+    elems (Treemap.insertRange t lo hi).1 = (Spec.insertRange u64Max (elems t) lo hi).1 ∧
+    (Treemap.insertRange t lo hi).2 = (Spec.insertRange u64Max (elems t) lo hi).2 :=
+  insertRange_spec kernel32 t hw lo hi hlo hhi
+
+/-- `remove_range`: every value of the range is removed, emptied partitions are dropped, and the result is the
+    number of values that were present. -/
+theorem C10_removeRange (t : Treemap) (hw : TWF t) (lo hi : Bound)
+    (hlo : Bound.le u64Max lo) (hhi : Bound.le u64Max hi) :
+    TWF (Treemap.removeRange t lo hi).1 ∧
+    elems (Treemap.removeRange t lo hi).1 = (Spec.removeRange u64Max (elems t) lo hi).1 ∧
+    (Treemap.removeRange t lo hi).2 = (Spec.removeRange u64Max (elems t) lo hi).2 :=
+  removeRange_spec kernel32 t hw lo hi hlo hhi
+
+/-- `push_unchecked` of a value above the maximum appends it; neither the debug assertions nor the explicit
+    `panic!` fire, in either build configuration. -/
+theorem C10_pushUnchecked (dbg : Bool) (t : Treemap) (hw : TWF t) (v : Nat) (hv : v < 18446744073709551616)
+    (hmax : ∀ x ∈ elems t, x < v) :
+    ∃ t', Treemap.pushUnchecked dbg t v = some t' ∧ TWF t' ∧ elems t' = elems t ++ [v] :=
+  pushUnchecked_spec kernel32 dbg t hw v hv hmax
+
+/-- `append`: never panics (in either build configuration); exactly the strictly ascending prefix that starts
+    above the current maximum is added; `Ok(n)` iff everything was accepted, else `Err(k)` with exactly the
+    first `k` values added. -/
+theorem C10_append (dbg : Bool) (t : Treemap) (hw : TWF t) (vs : List Nat) (hvs : ∀ v ∈ vs, v < 18446744073709551616) :
+    ∃ t', Treemap.append dbg t vs = some (t', (Spec.append (elems t) vs).2) ∧ TWF t' ∧
+      elems t' = (Spec.append (elems t) vs).1 :=
+  append_spec kernel32 dbg t hw (C10_max t hw) vs hvs
+
+/-- `from_sorted_iter` is `append` on the empty treemap. -/
+theorem C10_fromSortedIter (dbg : Bool) (vs : List Nat) (hvs : ∀ v ∈ vs, v < 18446744073709551616) :
+    ∃ t', Treemap.append dbg [] vs = some (t', (Spec.append [] vs).2) ∧ TWF t' ∧ elems t' = (Spec.append [] vs).1 :=
+  C10_append dbg [] WFd.nil vs hvs
+
+/-- `rank(v)` is the number of values `≤ v` (whether or not the partition of `v` exists). -/
+theorem C10_rank (t : Treemap) (hw : TWF t) (v : Nat) (hv : v < 18446744073709551616) :
+    Treemap.rank t v = Spec.rank (elems t) v := rank_spec kernel32 t hw v hv
+
+/-- `select(n)` is the `n`-th smallest value (`None` past the end); the `.unwrap()` on the partition's
+    `select` never panics. -/
+theorem C10_select (t : Treemap) (hw : TWF t) (n : Nat) :
+    Treemap.select t n = some (Spec.select (elems t) n) := select_spec kernel32 t hw n
+
+/-- `from_bitmaps`: empty bitmaps are skipped and a repeated key replaces the earlier partition. -/
+theorem C10_fromBitmaps (items : List (Nat × Bitmap)) (h : ∀ p ∈ items, p.1 < 4294967296 ∧ Bitmap.WF p.2) :
+    TWF (Treemap.fromBitmaps items) ∧
+    elems (Treemap.fromBitmaps items) = Spec.fromBitmaps (items.map (fun p => (p.1, Bitmap.elems p.2))) :=
+  fromBitmaps_spec kernel32 items h
+
+/-! ### histories (MODEL `Treemap.step` / `Treemap.run`, SPEC `Spec.step64` / `Spec.run64`: Step64.lean) -/
+
+/-- **One step.** Every call on a well-formed value, in either build configuration, succeeds (no panic),
+    returns exactly what the set operation reports, and yields a well-formed value whose element list is the
+    set operation's result. -/
+theorem C10_step (dbg : Bool) (t : Treemap) (h : TWF t) (op : Op64) (hv : op.Valid) :
+    ∃ t', Treemap.step dbg t op = some (t', (Spec.step64 (elems t) op).2) ∧ TWF t' ∧
+      elems t' = (Spec.step64 (elems t) op).1 := by
+  cases op with
+  | insert v =>
+    obtain ⟨h1, h2, h3⟩ := C10_insert t h v hv
+    exact ⟨_, by simp only [Treemap.step, Spec.step64, h3], h1, h2⟩
+  | remove v =>
+    obtain ⟨h1, h2, h3⟩ := C10_remove t h v hv
+    exact ⟨_, by simp only [Treemap.step, Spec.step64, h3], h1, h2⟩
+  | insertRange lo hi =>
+    obtain ⟨h1, h2, h3⟩ := C10_insertRange t h lo hi hv.1 hv.2
+    exact ⟨_, by simp only [Treemap.step, Spec.step64, h3], h1, h2⟩
+  | removeRange lo hi =>
+    obtain ⟨h1, h2, h3⟩ := C10_removeRange t h lo hi hv.1 hv.2
+    exact ⟨_, by simp only [Treemap.step, Spec.step64, h3], h1, h2⟩
+  | push v =>
+    obtain ⟨h1, h2, h3⟩ := C10_push t h v hv
+    exact ⟨_, by simp only [Treemap.step, Spec.step64, h3], h1, h2⟩
+  | append vs =>
+    obtain ⟨t', h1, h2, h3⟩ := C10_append dbg t h vs hv
+    exact ⟨t', by simp only [Treemap.step, Spec.step64, h1, Option.map_some], h2, h3⟩
+  | extend vs =>
+    obtain ⟨h1, h2⟩ := C10_extend vs hv t h
+    exact ⟨_, rfl, h1, h2⟩
+  | clear => exact ⟨_, rfl, (C10_new_clear t).2.2.1, (C10_new_clear t).2.2.2⟩
+  | contains v => exact ⟨t, by simp only [Treemap.step, Spec.step64, C10_contains t h v hv], h, rfl⟩
+  | len => exact ⟨t, by simp only [Treemap.step, Spec.step64, C10_len t h], h, rfl⟩
+  | isEmpty => exact ⟨t, by simp only [Treemap.step, Spec.step64, C10_isEmpty t h], h, rfl⟩
+  | min => exact ⟨t, by simp only [Treemap.step, Spec.step64, C10_min t h], h, rfl⟩
+  | max => exact ⟨t, by simp only [Treemap.step, Spec.step64, C10_max t h], h, rfl⟩
+  | rank v => exact ⟨t, by simp only [Treemap.step, Spec.step64, C10_rank t h v hv], h, rfl⟩
+  | select n => exact ⟨t, by simp only [Treemap.step, Spec.step64, C10_select t h n, Option.map_some], h, rfl⟩
+
+/-- every history from a well-formed value -/
+theorem C10_run (dbg : Bool) (ops : List Op64) : ∀ (t : Treemap), TWF t → (∀ op ∈ ops, op.Valid) →
+    ∃ t', Treemap.run dbg t ops = some (t', (Spec.run64 (elems t) ops).2) ∧ TWF t' ∧
+      elems t' = (Spec.run64 (elems t) ops).1 := by
+  induction ops with
+  | nil => intro t h _; exact ⟨t, rfl, h, rfl⟩
+  | cons op ops ih =>
+    intro t h hv
+    obtain ⟨t1, s1, w1, e1⟩ := C10_step dbg t h op (hv op (List.mem_cons_self ..))
+    obtain ⟨t2, s2, w2, e2⟩ := ih t1 w1 (fun o ho => hv o (List.mem_cons_of_mem _ ho))
+    refine ⟨t2, ?_, w2, ?_⟩
+    · simp only [Treemap.run, s1, s2, Spec.run64, Option.map_some, e1]
+    · simp only [Spec.run64]; rw [← e1]; exact e2
+
+/-- **Every history.** After any finite sequence of calls from `RoaringTreemap::new()`, with all `u64`
+    arguments, in builds with and without debug assertions: no panic, every returned value (including every
+    query along the way) is the abstract one, and the treemap contains exactly the integers the same sequence
+    produces on a mathematical set of `u64`. -/
+theorem C10_history (dbg : Bool) (ops : List Op64) (hv : ∀ op ∈ ops, op.Valid) :
+    ∃ t, Treemap.run dbg Treemap.new ops = some (t, (Spec.run64 [] ops).2) ∧ TWF t ∧
+      elems t = (Spec.run64 [] ops).1 :=
+  C10_run dbg ops Treemap.new (C10_new_clear []).1 hv
+
 /-! ### non-vacuity: a three-partition treemap built through the public API meets the invariant
 
-`Kernel32` itself is instantiated by the coordinator's 32-bit proofs (C01/C07) at merge; here the directory
-lemmas are shown to apply to a concrete value with a concrete 32-bit invariant. -/
+The directory lemmas are shown to apply to a concrete value with a concrete 32-bit invariant, and the same
+value meets `TWF`, the hypothesis of the unconditional theorems. -/
 
-def wfEx (b : Bitmap) : Prop := Sorted (Bitmap.elems b) ∧ ∀ x ∈ Bitmap.elems b, x < 4294967296
+def wfEx (b : Bitmap) : Prop := TL.Sorted (Bitmap.elems b) ∧ ∀ x ∈ Bitmap.elems b, x < 4294967296
 private theorem wfEx_elems32 : Elems32 wfEx := ⟨fun _ h => h.1, fun _ h => h.2⟩
 
 /-- `{1, 5, 2^33+3, 2^33+50, 2^34+7}`: partitions 0, 2, 4 (absent partitions in between) -/
@@ -461,7 +652,32 @@ example : WFd wfEx tEx := by
   rcases hp with rfl | rfl | rfl <;>
     exact ⟨by decide, ⟨by decide, by decide⟩, by decide⟩
 
+theorem tEx_TWF : TWF tEx := by
+  rw [tEx_eq]
+  refine ⟨by decide, ?_⟩
+  intro p hp
+  simp only [tExLit, List.mem_cons, List.not_mem_nil, or_false] at hp
+  rcases hp with rfl | rfl | rfl <;>
+    exact ⟨by decide, ⟨by decide, by
+      intro c hc
+      simp only [List.mem_cons, List.not_mem_nil, or_false] at hc
+      subst hc
+      exact ⟨by decide, ⟨by unfold Roaring.Sorted; decide, by decide⟩, by decide, by decide⟩⟩, by decide⟩
+
 example : elems tEx = [1, 5, 8589934595, 8589934642, 17179869191] := by decide
+/-- non-vacuity of the history theorem: a concrete history over three partitions satisfies the hypotheses … -/
+def opsEx : List Op64 :=
+  [.insert 4294967296, .push 5, .insertRange (.incl 4294967290) (.excl 4294967300), .rank 4294967296,
+   .removeRange (.incl 0) (.incl 4294967295), .select 3, .append [8589934595, 8589934642, 7]]
+example : ∀ op ∈ opsEx, op.Valid := by
+  intro op hop
+  simp only [opsEx, List.mem_cons, List.not_mem_nil, or_false] at hop
+  rcases hop with rfl | rfl | rfl | rfl | rfl | rfl | rfl <;> simp [Op64.Valid, Bound.le, u64Max]
+/-- … and the model evaluates as the theorem says (values returned along the way) -/
+example : (Treemap.run true Treemap.new opsEx).map (fun r => elems r.1) = some (Spec.run64 [] opsEx).1 := by decide
+example : (Spec.run64 [] opsEx).1 = [4294967296, 4294967297, 4294967298, 4294967299, 8589934595, 8589934642] := by
+  decide
+
 /-- the D4 shape on the model: after `insert(2^32)`, `push(5)` is refused -/
 example : (Treemap.push (Treemap.insert [] 4294967296).1 5).2 = false := by decide
 
